@@ -181,7 +181,6 @@ func (u *Unit) explicitConv(st *State, v Val, to types.Type, pos token.Pos) Val 
 	// string(byteslice) / []byte(string): length preserving
 	if v.So == "String" && strings.HasPrefix(so, "Slice_") {
 		st.assume(sEq(app("slen_"+so, r.T), app("str.len", v.T)))
-		st.assume(sEq(app("soff_"+so, r.T), "0"))
 		st.assume(sNot(app("snil_"+so, r.T)))
 		u.d.axiom("conv.bytes."+name, fmt.Sprintf("(forall ((s String) (i Int)) (! (=> (and (<= 0 i) (< i (str.len s))) (= (select (sarr_%s (%s s)) i) (str.to_code (str.at s i)))) :pattern ((select (sarr_%s (%s s)) i))))", so, name, so, name))
 	}
@@ -319,8 +318,7 @@ func (u *Unit) appendSlice(st *State, s, t Val) Val {
 	_, _, sl, snil := u.sliceParts(s)
 	_, _, tl, _ := u.sliceParts(t)
 	r := Val{T: u.fresh("appended", s.So), Ty: s.Ty, So: s.So}
-	_, roff, rl, rnil := u.sliceParts(r)
-	st.assume(sEq(roff, "0"))
+	_, _, rl, rnil := u.sliceParts(r)
 	st.assume(sEq(rl, app("+", sl, tl)))
 	st.assume(sEq(rnil, sAnd(snil, sEq(tl, "0"))))
 	u.nfresh++
